@@ -466,3 +466,101 @@ Proof.
   intros e He. unfold merge in He. apply (proj1 (sort_in _ _)) in He. rewrite collect_flat in He.
   pose proof (add_flat_nonempty (flat spk) [] (Forall_nil _)) as H. rewrite Forall_forall in H. apply H. exact He.
 Qed.
+
+(* ---- the reference does not depend on how the spike map is presented -------------------------
+   Two spike maps that list the same (time, variable) pairs in any order — variables in another order,
+   times unsorted, duplicates kept — give the same exact solution, provided increments commute
+   (they add to different or the same components of the state). *)
+Section Presentation.
+  Variable St : Type.
+  Variable phi : Z -> St -> St.
+  Variable bump : var -> St -> St.
+  Variable init : St.
+  Hypothesis bump_comm : forall v w s, bump v (bump w s) = bump w (bump v s).
+
+  Notation bumps := (bumps St bump).
+  Notation run_events := (run_events St phi bump).
+  Notation spec := (spec St phi bump init).
+
+  Lemma bumps_cons v vs s : bumps (v :: vs) s = bumps vs (bump v s).
+  Proof. reflexivity. Qed.
+
+  Lemma bump_bumps v vs : forall s, bump v (bumps vs s) = bumps vs (bump v s).
+  Proof.
+    induction vs as [|w vs IH]; intros s; [reflexivity|]. rewrite !bumps_cons, IH, bump_comm. reflexivity.
+  Qed.
+
+  Lemma bumps_perm vs vs' : Permutation vs vs' -> forall s, bumps vs s = bumps vs' s.
+  Proof.
+    induction 1 as [|v l l' Hp IH|v w l|l1 l2 l3 H1 IH1 H2 IH2]; intros s.
+    - reflexivity.
+    - rewrite !bumps_cons. apply IH.
+    - rewrite !bumps_cons, bump_comm. reflexivity.
+    - rewrite IH1. apply IH2.
+  Qed.
+
+  Definition ev_equiv (e e' : event) : Prop := fst e = fst e' /\ Permutation (snd e) (snd e').
+
+  Lemma run_events_equiv evs evs' : Forall2 ev_equiv evs evs' -> forall tc s, run_events evs tc s = run_events evs' tc s.
+  Proof.
+    induction 1 as [|[t vs] [t' vs'] l l' [Ht Hp] Hl IH]; intros tc s; [reflexivity|].
+    cbn [fst snd] in Ht, Hp. subst t'. cbn [AnalyticInt.run_events]. rewrite (bumps_perm vs vs' Hp). apply IH.
+  Qed.
+
+  Lemma filter_equiv (f : Z -> bool) evs evs' : Forall2 ev_equiv evs evs' ->
+    Forall2 ev_equiv (filter (fun e => f (fst e)) evs) (filter (fun e => f (fst e)) evs').
+  Proof.
+    induction 1 as [|e e' l l' [Ht Hp] Hl IH]; cbn [filter]; [constructor|].
+    rewrite <- Ht. destruct (f (fst e)); [constructor; [split; assumption|exact IH]|exact IH].
+  Qed.
+
+  Theorem spec_equiv evs evs' t : Forall2 ev_equiv evs evs' -> spec evs t = spec evs' t.
+  Proof.
+    intros H. unfold AnalyticInt.spec.
+    assert (Forall2 ev_equiv (filter (in_window 0 t) evs) (filter (in_window 0 t) evs')) as F.
+    { exact (filter_equiv (fun x => (0 <? x) && (x <=? t)) evs evs' H). }
+    rewrite (run_events_equiv _ _ F 0 init). reflexivity.
+  Qed.
+
+  (* strictly time-sorted event lists with the same times and, at each time, permuted variable lists *)
+  Lemma sorted_same_times evs : forall evs', times_sorted evs -> times_sorted evs' ->
+    (forall x, In x (times evs) <-> In x (times evs')) ->
+    (forall s, Permutation (syms_at s evs) (syms_at s evs')) -> Forall2 ev_equiv evs evs'.
+  Proof.
+    induction evs as [|[t vs] r IH]; intros evs' Hs Hs' Ht Hsy.
+    - destruct evs' as [|[t' vs'] r']; [constructor|]. exfalso. apply (proj2 (Ht t')). left. reflexivity.
+    - destruct evs' as [|[t' vs'] r']; [exfalso; apply (proj1 (Ht t)); left; reflexivity|].
+      pose proof (sorted_tail_gt (t, vs) r Hs) as G. pose proof (sorted_tail_gt (t', vs') r' Hs') as G'.
+      assert (t = t') as E.
+      { destruct (proj1 (Ht t) (or_introl eq_refl)) as [E|Hin]; [cbn in E; congruence|].
+        destruct (proj2 (Ht t') (or_introl eq_refl)) as [E|Hin']; [cbn in E; congruence|].
+        unfold times in Hin, Hin'. apply in_map_iff in Hin. apply in_map_iff in Hin'. destruct Hin as [e [He1 He2]]. destruct Hin' as [e' [He1' He2']].
+        specialize (G' e He2). specialize (G e' He2'). cbn [fst] in *. lia. }
+      subst t'. constructor.
+      + split; [reflexivity|]. cbn [snd]. specialize (Hsy t). rewrite !syms_at_cons in Hsy. cbn [fst snd] in Hsy. rewrite !Z.eqb_refl in Hsy.
+        rewrite (syms_at_notin t r), (syms_at_notin t r'), !app_nil_r in Hsy; [exact Hsy| |].
+        * unfold times. intros Hin. apply in_map_iff in Hin. destruct Hin as [e [He1 He2]]. specialize (G' e He2). cbn [fst] in *. lia.
+        * unfold times. intros Hin. apply in_map_iff in Hin. destruct Hin as [e [He1 He2]]. specialize (G e He2). cbn [fst] in *. lia.
+      + apply IH; [exact (sorted_tail _ _ Hs)|exact (sorted_tail _ _ Hs')| |].
+        * intros x. specialize (Ht x). unfold times in *. cbn [map fst In] in Ht. split; intros Hx.
+          -- destruct (proj1 Ht (or_intror Hx)) as [E|H']; [|exact H']. exfalso. subst x. apply in_map_iff in Hx. destruct Hx as [e [He1 He2]]. specialize (G e He2). cbn [fst] in *. lia.
+          -- destruct (proj2 Ht (or_intror Hx)) as [E|H']; [|exact H']. exfalso. subst x. apply in_map_iff in Hx. destruct Hx as [e [He1 He2]]. specialize (G' e He2). cbn [fst] in *. lia.
+        * intros s. specialize (Hsy s). rewrite !syms_at_cons in Hsy. cbn [fst snd] in Hsy. destruct (t =? s) eqn:Ets; [|exact Hsy].
+          apply Z.eqb_eq in Ets. subst s. rewrite (syms_at_notin t r), (syms_at_notin t r'); [constructor| |].
+          -- unfold times. intros Hin. apply in_map_iff in Hin. destruct Hin as [e [He1 He2]]. specialize (G' e He2). cbn [fst] in *. lia.
+          -- unfold times. intros Hin. apply in_map_iff in Hin. destruct Hin as [e [He1 He2]]. specialize (G e He2). cbn [fst] in *. lia.
+  Qed.
+
+  Theorem spec_presentation_independent spk spk' t : Permutation (flat spk) (flat spk') ->
+    spec (merge spk) t = spec (merge spk') t.
+  Proof.
+    intros Hp. apply spec_equiv. apply sorted_same_times; [apply merge_sorted|apply merge_sorted| |].
+    - intros x. rewrite !merge_times. split; intros H; apply in_map_iff in H; destruct H as [p [<- Hp']]; apply in_map;
+        [apply (Permutation_in _ Hp)|apply (Permutation_in _ (Permutation_sym Hp))]; exact Hp'.
+    - intros s. rewrite !merge_syms. apply Permutation_map. clear - Hp. induction Hp; cbn [filter].
+      + constructor.
+      + destruct (fst x =? s); [constructor|]; assumption.
+      + destruct (fst x =? s); destruct (fst y =? s); try apply perm_swap; try (constructor; apply Permutation_refl); apply Permutation_refl.
+      + eapply Permutation_trans; eassumption.
+  Qed.
+End Presentation.
